@@ -173,6 +173,8 @@ class Builder:
     def prices(self, pid):
         if pid not in self._pr:
             self._pr[pid] = build_prices(self.w["prices"][pid], self)
+            for u in getattr(self, "price_updates", {}).get(pid, []):
+                apply_price_update(self._pr[pid], *u)
         return self._pr[pid]
 
     def obj(self, oid):
@@ -193,6 +195,14 @@ class Builder:
 def build_grid(s):
     return eao.assets.Timegrid(mat(s["start"]), mat(s["end"]), freq=s["freq"],
                                main_time_unit=s["mtu"], timezone=s.get("tz"))
+
+
+def apply_price_update(pr, key, mul, add, style="assign"):
+    """The user writes new quotes into a price container: a new array under the key, or new numbers into the array."""
+    if style == "inplace" and isinstance(pr, dict):
+        pr[key][:] = pr[key] * mul + add
+    else:
+        pr[key] = pr[key] * mul + add
 
 
 def build_prices(s, B):
